@@ -49,8 +49,73 @@ R["C07"] = ("not a workload of its own: every engine re-runs the workload mix of
             "mpi: C04 C08; the four demos: C11) with ASan + UBSan (no recovery) and an LSan leak check after every run; tbb and mpi additionally under TSan; thorough adds a valgrind pass over "
             "the plain build. Violations: any sanitizer / valgrind report, any worker death, and the arena's stale-descriptor oracle. distinct = per-engine case key; non-trivial as defined by the source property")
 
+import json, os, random, re, subprocess, time
+
+def real_runtime_crosscheck(seed, nfiles=10):
+    """Thorough tier only, observation (never decides a property): the demo executables built by the
+    repository's own CMake, real libtbb and real Open MPI under mpiexec, on a handful of files.
+    Valid files: every algorithm / process count prints the weight the sequential demo prints.
+    Rejected files: mpiexec -n 2 ends with a non-zero status within the time limit.
+    A disagreement means the simulation's model and the real runtimes differ: exit 2, not a VIOLATION."""
+    bdir = os.path.join(vlib.BUILD, "repo-cmake")
+    t0 = time.time()
+    p = subprocess.run("cmake -S %s -B %s -G Ninja -DCMAKE_BUILD_TYPE=Release >/dev/null 2>&1 && cmake --build %s --target mcb-dimacs mcb-dimacs-mpi 2>&1 | tail -3" % (vlib.REPO, bdir, bdir), shell=True, stdout=subprocess.PIPE, text=True)
+    exe, exe_mpi = os.path.join(bdir, "mcb-dimacs"), os.path.join(bdir, "mcb-dimacs-mpi")
+    if not (os.path.exists(exe) and os.path.exists(exe_mpi)):
+        return {"ran": False, "reason": "cmake build of the real executables failed: " + p.stdout[-300:]}
+    rnd = random.Random(seed)
+    sdir = os.path.join(vlib.BUILD, "scratch"); os.makedirs(sdir, exist_ok=True)
+    res = {"ran": True, "files": 0, "launches": 0, "agree": 0, "disagree": [], "build_s": round(time.time() - t0, 1)}
+    def weight(out):
+        m = re.search(r"MCB weight = ([-0-9.e+]+)", out); return float(m.group(1)) if m else None
+    for k in range(nfiles):
+        n = rnd.randint(4, 9); edges = set()
+        for _ in range(rnd.randint(n, 2 * n)):
+            u, v = rnd.randint(1, n), rnd.randint(1, n)
+            if u != v: edges.add((min(u, v), max(u, v)))
+        el = [(u, v, rnd.randint(1, 30)) for (u, v) in sorted(edges)]
+        invalid = k % 3 == 2
+        if invalid:
+            kind = rnd.choice(["loop", "parallel", "nonpositive"])
+            if kind == "loop": el.append((1, 1, 4))
+            elif kind == "parallel" and el: el.append((el[0][1], el[0][0], 7))
+            else: el[0] = (el[0][0], el[0][1], 0)
+        path = os.path.join(sdir, "real-%d-%d.dimacs" % (os.getpid(), k))
+        open(path, "w").write("p edge %d %d\n" % (n, len(el)) + "".join("e %d %d %d\n" % e for e in el))
+        res["files"] += 1
+        try:
+            if invalid:
+                q = subprocess.run(["mpiexec", "--allow-run-as-root", "--oversubscribe", "-n", "2", exe_mpi, path], stdout=subprocess.PIPE, stderr=subprocess.PIPE, timeout=60)
+                res["launches"] += 1
+                if q.returncode != 0: res["agree"] += 1
+                else: res["disagree"].append({"file": k, "what": "rejected input but mpiexec -n 2 exited 0"})
+            else:
+                q = subprocess.run([exe, "--parallel=false", path], stdout=subprocess.PIPE, stderr=subprocess.PIPE, text=True, timeout=60)
+                ref = weight(q.stdout); res["launches"] += 1
+                for P in (1, 2, 3):
+                    for alg in (["--signed=true"], ["--signed=false", "--fvstrees=true"], ["--signed=false", "--isotrees=true"]):
+                        q = subprocess.run(["mpiexec", "--allow-run-as-root", "--oversubscribe", "-n", str(P), exe_mpi] + alg + [path], stdout=subprocess.PIPE, stderr=subprocess.PIPE, text=True, timeout=120)
+                        res["launches"] += 1
+                        w = weight(q.stdout)
+                        if q.returncode == 0 and w is not None and ref is not None and abs(w - ref) <= 1e-5 * max(1.0, abs(ref)): res["agree"] += 1
+                        else: res["disagree"].append({"file": k, "P": P, "alg": alg, "rc": q.returncode, "weight": w, "reference": ref})
+        except subprocess.TimeoutExpired:
+            res["disagree"].append({"file": k, "what": "timeout (real runtime did not terminate)", "invalid": invalid})
+        finally:
+            try: os.unlink(path)
+            except OSError: pass
+    res["wall_s"] = round(time.time() - t0, 1)
+    return res
+
 def run(prop, tier, seed):
     if prop not in vlib.STAGES:
         print("HARNESS-ERROR: no check registered for " + prop)
         return 2
-    return vlib.check_property(prop, tier, seed)
+    extra = None
+    if prop in ("C11", "C04") and tier == "thorough" and not os.environ.get("VERIF_NO_REAL"):
+        cc = real_runtime_crosscheck(seed)
+        extra = {"real_runtime_crosscheck": cc}
+        if cc.get("disagree"):
+            print("HARNESS-ERROR: real-runtime cross-check disagrees with the simulation: " + json.dumps(cc["disagree"][:3]))
+            return 2
+    return vlib.check_property(prop, tier, seed, extra_cov=extra)
